@@ -122,6 +122,19 @@ def loop_common(lc, acc='Lformula'):
       + frame(he, h, he.alloc, {'sets': own})
 
 
+def eu_lfp_schema(c):
+    """least-fixpoint principle of E(phi0 U phi1) (second-order, trusted semantics): for EVERY set
+    Z containing sat(phi1) and closed under `phi0-predecessor`, sat(f) is within Z"""
+    f = c.formula.t
+    k = c.kripke.t
+    p = kid0(f)
+    Z = z3.Const('Z!lfp', hp.SetH)
+    s, d = X('s'), X('d')
+    closed = z3.And(z3.ForAll([s], z3.Implies(sat(kid1(p))[s], Z[s])),
+                    z3.ForAll([s, d], z3.Implies(z3.And(sat(kid0(p))[s], edge(c.h0, k, s, d), Z[d]), Z[s])))
+    return z3.ForAll([Z], z3.Implies(closed, z3.ForAll([s], z3.Implies(sat(f)[s], Z[s]))))
+
+
 def complete_clause(lc, A, phi):
     s, d = X('s'), X('d')
     body = z3.Implies(z3.And(lc.seen[s, d], sat(phi)[d]), A[s])
@@ -252,13 +265,95 @@ def install(E):
         ensures=common_ensures, frame=memo_frame, may_write=memo_may_write,
         touches=TOUCH, owner='C01'))
 
-    # -- _checkEU / _checkEG: contracts stated; bodies verified separately (see DESIGN.md) ------
+    # -- _checkEU ---------------------------------------------------------------------------
+    # The code builds G3 = reversed( K restricted to phi0-states ) plus an edge (w, v) for every
+    # K-edge v -> w with v |= phi0, w |= phi1, plus the phi1-states as nodes, and returns the set
+    # reachable from the phi1-states in G3.  Invariants describe G3 by soundness/completeness
+    # implications (no existential quantifier).
+    from .contracts_graph import wfG, sref, succ, nx, reach_least_instance
+
+    def eu_view(lc):
+        c, h = lc.c, lc.h
+        f = c.formula.t
+        p = kid0(f)
+        sg = lc.env['subgraph'].t
+        P0 = h.set_of(lc.env['Lphi'].x[0].t)
+        P1 = h.set_of(lc.env['Lphi'].x[1].t)
+        return c, h, c.kripke.t, f, p, sg, P0, P1
+
+    def eu_common(lc):
+        c, h, k, f, p, sg, P0, P1 = eu_view(lc)
+        he = lc.h_entry
+        L = c.L.t
+        s, a, b = X('s'), X('a'), X('b')
+        ownL = lambda r: r == L        # noqa
+        return [
+            ('phi0', z3.ForAll([s], P0[s] == sat(kid0(p))[s])),
+            ('phi1', z3.ForAll([s], P1[s] == sat(kid1(p))[s])),
+            ('operands_old', z3.And(lc.env['Lphi'].x[0].t < he.alloc, lc.env['Lphi'].x[1].t < he.alloc,
+                                    lc.env['Lphi'].x[0].t >= 0, lc.env['Lphi'].x[1].t >= 0)),
+            ('subgraph_own', z3.And(sg >= c.h0.alloc, sg < he.alloc, nx(h, sg) == nx(he, sg), nx(h, sg) >= c.h0.alloc)),
+            ('subgraph_wf', wfG(h, sg)),
+            ('subgraph_sets_own', z3.ForAll([s], z3.Implies(V(h, sg)[s], sref(h, sg, s) >= c.h0.alloc))),
+            ('nodes_cover_phi0', z3.ForAll([s], z3.Implies(P0[s], V(h, sg)[s]))),
+            ('nodes_within', z3.ForAll([s], z3.Implies(V(h, sg)[s], z3.Or(P0[s], P1[s])))),
+            ('edges_sound', hp.FA([a, b], z3.Implies(edge(h, sg, a, b), z3.And(edge(c.h0, k, b, a), P0[b], z3.Or(P0[a], P1[a]))),
+                                  [succ(h, sg, a)[b]])),
+            ('edges_phi0', hp.FA([a, b], z3.Implies(z3.And(P0[a], P0[b], edge(c.h0, k, b, a)), edge(h, sg, a, b)),
+                                 [succ(c.h0, k, b)[a], succ(h, sg, a)[b]])),
+            ('memo_inv', memo_inv(h, L)),
+            ('memo_has_no_formula_yet', z3.BoolVal(True)),
+            ('alloc', h.alloc >= he.alloc),
+        ] + [('since_entry:' + n_, f_) for n_, f_ in memo_grows(c.h0, h, L)] \
+          + frame(c.h0, h, c.h0.alloc, {'fd': ownL, 'fv': ownL}) \
+          + [('operand_sets_unchanged', z3.And(h.set_of(lc.env['Lphi'].x[0].t) == he.set_of(lc.env['Lphi'].x[0].t),
+                                               h.set_of(lc.env['Lphi'].x[1].t) == he.set_of(lc.env['Lphi'].x[1].t)))]
+
+    def eu_l2(lc):
+        c, h, k, f, p, sg, P0, P1 = eu_view(lc)
+        v, w = X('v'), X('w')
+        return eu_common(lc) + [
+            ('edges_phi1_so_far', hp.FA([v, w], z3.Implies(z3.And(lc.seen[v], edge(c.h0, k, v, w), P1[w]), edge(h, sg, w, v)),
+                                        [succ(c.h0, k, v)[w], succ(h, sg, w)[v]])),
+        ]
+
+    def eu_l3(lc):
+        c, h, k, f, p, sg, P0, P1 = eu_view(lc)
+        v, w = X('v'), X('w')
+        cur = lc.env['v'].t
+        outer = lc.outer[2]
+        return eu_common(lc) + [
+            ('edges_phi1_so_far', hp.FA([v, w], z3.Implies(z3.And(outer[v], edge(c.h0, k, v, w), P1[w]), edge(h, sg, w, v)),
+                                        [succ(c.h0, k, v)[w], succ(h, sg, w)[v]])),
+            ('current', z3.And(P0[cur], V(c.h0, k)[cur])),
+            ('iterated_is_next_and_phi1', z3.ForAll([w], lc.coll.mem[w] == z3.And(edge(c.h0, k, cur, w), P1[w]))),
+            ('current_so_far', z3.ForAll([w], z3.Implies(lc.seen[w], edge(h, sg, w, cur)))),
+        ]
+
+    def eu_l4(lc):
+        c, h, k, f, p, sg, P0, P1 = eu_view(lc)
+        he = lc.h_entry
+        v, w, s, a, b = X('v'), X('w'), X('s'), X('a'), X('b')
+        return eu_common(lc) + [
+            ('edges_phi1', hp.FA([v, w], z3.Implies(z3.And(P0[v], edge(c.h0, k, v, w), P1[w]), edge(h, sg, w, v)),
+                                 [succ(c.h0, k, v)[w], succ(h, sg, w)[v]])),
+            ('nodes_added', z3.ForAll([s], V(h, sg)[s] == z3.Or(V(he, sg)[s], lc.seen[s]))),
+            ('edges_kept', hp.FA([a, b], edge(h, sg, a, b) == edge(he, sg, a, b), [succ(h, sg, a)[b], succ(he, sg, a)[b]])),
+            ('iterated_is_missing_phi1', z3.ForAll([s], lc.coll.mem[s] == z3.And(P1[s], z3.Not(V(he, sg)[s])))),
+        ]
+
+    def eu_reach_hint(cc, c, path):
+        # instance of `least` of get_reachable_set_from at Z := sat(formula)
+        return [reach_least_instance(c, sat(cc.formula.t))]
+
     reg(Contract(
         '_checkEU', 'ctl', PARAMS, ret='set',
-        requires=lambda c: common_requires(c, lambda f: z3.And(is_tag(f, 'E'), is_tag(kid0(f), 'U'))),
+        requires=lambda c: common_requires(c, lambda f: z3.And(is_tag(f, 'E'), is_tag(kid0(f), 'U'))) + (
+            [('lfp_principle', eu_lfp_schema(c))] if c.side == 'callee' else []),
         ensures=common_ensures, frame=memo_frame, may_write=memo_may_write,
-        touches=TOUCH, owner='C01', assumed=True,
-        note='body not yet under proof: bounded stand-in only'))
+        touches=TOUCH, loop_touches={2: {'dd', 'dv', 'sets'}, 3: {'dd', 'dv', 'sets'}, 4: {'dd', 'dv', 'sets'}},
+        loops={2: eu_l2, 3: eu_l3, 4: eu_l4},
+        hints={'call': {'DiGraph.get_reachable_set_from': eu_reach_hint}}, owner='C01'))
     reg(Contract(
         '_checkEG', 'ctl', PARAMS, ret='set',
         requires=lambda c: common_requires(c, lambda f: z3.And(is_tag(f, 'E'), is_tag(kid0(f), 'G'))),
